@@ -30,6 +30,9 @@ use tonic::{Code, Status};
 use tower_layer::Layer;
 use tower_service::Service;
 
+#[path = "c12_x.rs"]
+mod x;
+
 // ---------------------------------------------------------------------------------------------
 // case data
 
@@ -86,6 +89,13 @@ enum Resp {
 struct Call {
     /// what the wrapped service's `poll_ready` says before this call: 0 ready, 1 pending, 2+n `Err(n)`
     ready: u32,
+    /// `async` kind only: polls the wrapped service's future stays `Pending` (`!d<k>`); `Pending` polls before every
+    /// frame of its response body (`!w<k>`); hint mode of that body (`!h<m>`, see c12_x.rs); future polled only after
+    /// all calls have been made (`!l`)
+    delay: u32,
+    bwait: u32,
+    hint: u8,
+    late: bool,
     method: Vec<u8>,
     version: u8,
     uri: Vec<u8>,
@@ -181,6 +191,18 @@ fn render(c: &Case) -> String {
             o.push("!p".into());
         } else if k.ready >= 2 {
             o.push(format!("!e{}", k.ready - 2));
+        }
+        if k.delay > 0 {
+            o.push(format!("!d{}", k.delay));
+        }
+        if k.bwait > 0 {
+            o.push(format!("!w{}", k.bwait));
+        }
+        if k.hint > 0 {
+            o.push(format!("!h{}", k.hint));
+        }
+        if k.late {
+            o.push("!l".into());
         }
         o.extend([hex(&k.method), k.version.to_string(), hex(&k.uri)]);
         r_h(&k.hdrs, &mut o);
@@ -304,18 +326,29 @@ fn parse(case: &str) -> Option<Case> {
     let nc: usize = t.num()?;
     let mut calls = Vec::new();
     for _ in 0..nc {
-        // optional readiness marker: `!p` pending, `!e<n>` error n (default: ready)
+        // optional markers: `!p` pending, `!e<n>` error n (default: ready); `!d<k>` `!w<k>` `!h<m>` `!l` (async kind)
         let mut ready = 0u32;
-        if let Some(tok) = t.t.get(t.i).copied() {
-            if let Some(m) = tok.strip_prefix('!') {
-                t.i += 1;
-                ready = if m == "p" {
-                    1
-                } else if let Some(n) = m.strip_prefix('e') {
-                    2 + n.parse::<u32>().ok()?
-                } else {
+        let (mut delay, mut bwait, mut hint, mut late) = (0u32, 0u32, 0u8, false);
+        while let Some(tok) = t.t.get(t.i).copied() {
+            let Some(m) = tok.strip_prefix('!') else { break };
+            t.i += 1;
+            if m == "p" {
+                ready = 1;
+            } else if m == "l" {
+                late = true;
+            } else if let Some(n) = m.strip_prefix('e') {
+                ready = 2 + n.parse::<u32>().ok()?;
+            } else if let Some(n) = m.strip_prefix('d') {
+                delay = n.parse().ok()?;
+            } else if let Some(n) = m.strip_prefix('w') {
+                bwait = n.parse().ok()?;
+            } else if let Some(n) = m.strip_prefix('h') {
+                hint = n.parse().ok()?;
+                if hint > 4 {
                     return None;
-                };
+                }
+            } else {
+                return None;
             }
         }
         let method = t.bytes()?;
@@ -329,7 +362,7 @@ fn parse(case: &str) -> Option<Case> {
             "r" => Resp::R { status: t.num()?, version: t.num()?, hdrs: t.h()?, ext: t.ext()?, body: t.body()? },
             _ => return None,
         };
-        calls.push(Call { ready, method, version, uri, hdrs, ext, body, resp });
+        calls.push(Call { ready, delay, bwait, hint, late, method, version, uri, hdrs, ext, body, resp });
     }
     if t.i != t.t.len() {
         return None;
@@ -466,6 +499,11 @@ impl ScriptBody {
             frames.push_back(Frame::trailers(mk_headers(t)?));
         }
         Some(ScriptBody { frames, remaining_data: n })
+    }
+}
+impl Default for ScriptBody {
+    fn default() -> Self {
+        ScriptBody { frames: VecDeque::new(), remaining_data: 0 }
     }
 }
 impl Body for ScriptBody {
@@ -739,6 +777,15 @@ pub fn execute(case: &str) -> String {
         Some(c) => c,
         None => return "bad-case".into(),
     };
+    if c.kind == "async" {
+        return x::execute_async(&c);
+    }
+    if c.kind == "gsrv" {
+        return x::execute_gsrv(&c);
+    }
+    if c.calls.iter().any(|k| k.delay > 0 || k.bwait > 0 || k.hint > 0 || k.late) {
+        return "bad-case".into();
+    }
     let log: Log = Arc::new(Mutex::new(Vec::new()));
     let calls = Arc::new(Mutex::new(0usize));
     let cur = Arc::new(Mutex::new(0usize));
@@ -1029,6 +1076,8 @@ impl std::error::Error for InnerErr {}
 
 /// The transport under the client-side interceptor: records the request, answers trailers-only.
 struct ClientMock {
+    /// show only the harness's own extension types (the generated client adds `GrpcMethod`)
+    known_only: bool,
     log: Log,
     calls: Arc<Mutex<usize>>,
     resps: Arc<Vec<(H, Vec<(u8, Vec<u8>)>)>>,
@@ -1050,7 +1099,7 @@ impl Service<http::Request<tonic::body::Body>> for ClientMock {
             version_tok(parts.version),
             hex(parts.uri.to_string().as_bytes()),
             show_headers(&parts.headers),
-            show_ext(&parts.extensions),
+            if self.known_only { show_ext_known(&parts.extensions) } else { show_ext(&parts.extensions) },
             drain(body)
         );
         self.log.lock().unwrap().push(line);
@@ -1124,13 +1173,14 @@ fn execute_client(case: &str) -> String {
     let calls = Arc::new(Mutex::new(0usize));
     let cur = Arc::new(Mutex::new(0usize));
     let resps = Arc::new(c.calls.iter().map(|k| (k.rhdrs.clone(), k.rext.clone())).collect::<Vec<_>>());
-    let shared = make_interceptor(c.scripts.clone(), log.clone(), false);
+    let generated = c.via == "gen";
+    let shared = make_interceptor(c.scripts.clone(), log.clone(), generated);
     // one client per origin would reset the interceptor; keep one service and re-wrap the
     // (cheaply cloneable) handle: InterceptedService is Clone when both parts are.
-    let mock = SharedMock(Arc::new(Mutex::new(ClientMock { log: log.clone(), calls: calls.clone(), resps, cur: cur.clone() })));
+    let mock = SharedMock(Arc::new(Mutex::new(ClientMock { known_only: generated, log: log.clone(), calls: calls.clone(), resps, cur: cur.clone() })));
     let svc: InterceptedService<SharedMock, SharedIcpt> = match c.via.as_str() {
-        "layer" => InterceptorLayer::new(shared).layer(mock),
-        _ => InterceptedService::new(mock, shared),
+        "layer" => InterceptorLayer::new(shared.clone()).layer(mock.clone()),
+        _ => InterceptedService::new(mock.clone(), shared.clone()),
     };
     for (idx, k) in c.calls.iter().enumerate() {
         *cur.lock().unwrap() = idx;
@@ -1152,14 +1202,42 @@ fn execute_client(case: &str) -> String {
             Some(h) => MetadataMap::from_headers(h),
             None => return "bad-case".into(),
         };
-        let mut client = tonic::client::Grpc::with_origin(svc.clone(), origin);
-        let mut req = tonic::Request::new(k.msg.clone());
-        *req.metadata_mut() = md;
-        *req.extensions_mut() = mk_ext(&k.ext);
-        let res = block_on(async {
-            client.ready().await.map_err(|_| Status::internal("not ready"))?;
-            client.server_streaming::<Vec<u8>, Vec<u8>, RawCodec>(req, path, RawCodec).await
-        });
+        let res = if generated {
+            // tonic-build's generated constructor and method: `HealthClient::with_interceptor(t, f).watch(req)`
+            use prost::Message;
+            let msg = match tonic_health::pb::HealthCheckRequest::decode(&k.msg[..]) {
+                Ok(m) if m.encode_to_vec() == k.msg => m,
+                _ => return "bad-case".into(),
+            };
+            if !k.prefix.is_empty() || k.opath != b"/" || k.oquery || k.path != b"/grpc.health.v1.Health/Watch" {
+                return "bad-case".into();
+            }
+            let mut client = tonic_health::pb::health_client::HealthClient::with_interceptor(mock.clone(), shared.clone());
+            let mut req = tonic::Request::new(msg);
+            *req.metadata_mut() = md;
+            *req.extensions_mut() = mk_ext(&k.ext);
+            block_on(async { client.watch(req).await }).map(|r| {
+                r.map(|resp| {
+                    let (md, _stream, ext) = resp.into_parts();
+                    format!("cok {} {}", show_headers(&md.into_headers()), show_ext(&ext))
+                })
+            })
+        } else {
+            let mut client = tonic::client::Grpc::with_origin(svc.clone(), origin);
+            let mut req = tonic::Request::new(k.msg.clone());
+            *req.metadata_mut() = md;
+            *req.extensions_mut() = mk_ext(&k.ext);
+            block_on(async {
+                client.ready().await.map_err(|_| Status::internal("not ready"))?;
+                client.server_streaming::<Vec<u8>, Vec<u8>, RawCodec>(req, path, RawCodec).await
+            })
+            .map(|r| {
+                r.map(|resp| {
+                    let (md, _stream, ext) = resp.into_parts();
+                    format!("cok {} {}", show_headers(&md.into_headers()), show_ext(&ext))
+                })
+            })
+        };
         let after = *calls.lock().unwrap();
         if after == before {
             log.lock().unwrap().push("noinner".into());
@@ -1168,10 +1246,7 @@ fn execute_client(case: &str) -> String {
         }
         let line = match res {
             None => "cpending".to_string(),
-            Some(Ok(resp)) => {
-                let (md, _stream, ext) = resp.into_parts();
-                format!("cok {} {}", show_headers(&md.into_headers()), show_ext(&ext))
-            }
+            Some(Ok(line)) => line,
             Some(Err(st)) => format!("cerr {}", show_status_fields(&st)),
         };
         log.lock().unwrap().push(line);
@@ -1730,6 +1805,10 @@ fn gen_call(rng: &mut Rng) -> Call {
     let focus: Vec<Vec<u8>> = RESERVED.iter().map(|s| s.as_bytes().to_vec()).collect();
     Call {
         ready: 0,
+        delay: 0,
+        bwait: 0,
+        hint: 0,
+        late: false,
         method: rng.pick(&METHODS).as_bytes().to_vec(),
         version: *rng.pick(&VERSIONS),
         uri: canon_uri(*rng.pick(&URIS)),
@@ -1758,6 +1837,10 @@ fn via(rng: &mut Rng) -> String {
 fn simple_call(hdrs: H) -> Call {
     Call {
         ready: 0,
+        delay: 0,
+        bwait: 0,
+        hint: 0,
+        late: false,
         method: b"POST".to_vec(),
         version: 2,
         uri: canon_uri("/pkg.Service/Method"),
@@ -2224,5 +2307,7 @@ pub fn generate(tier: &str, rng: &mut Rng) -> Vec<String> {
         let c = gen_client_case(rng);
         out.push(render_client(&c));
     }
+    // ---- dimensions added by the proactive audit (shape, big, async): c12_x.rs
+    x::gen_extra(tier, rng, &mut out);
     out
 }
